@@ -19,12 +19,19 @@ THOROUGH_CONFIGS = ("headeronly",)
 
 
 def record_framing(ck, S, RID):
-    """IODeviceSink::send writes, per record, exactly one buffer = encode(formattedMessage()) + one newline"""
+    """per record exactly one device write of one buffer = encode(formattedMessage()) + one newline - in IODeviceSink::send and wherever else the rotating
+    sink hands a record to the device itself (a protected write helper of the base class spliced into RotatingFileSink::send)"""
     F = ck.facts
-    # ---- O2
-    fn = S.io_send
+    dev_write = lambda fn_: [n for n in fn_.calls() if name_is(n.get("callee"), ("QIODevice::write", "QIODevice::putChar")) and is_this_field(unwrap_ptr(n.get("obj")), IO + "::m_device")]
+    units = [(S.io_send, "IODeviceSink::send")]
+    if dev_write(S.send):
+        units.append((S.send, "RotatingFileSink::send"))
+    for fn, uname in units:
+        _record_framing_unit(ck, S, RID, fn, uname, dev_write(fn))
+
+
+def _record_framing_unit(ck, S, RID, fn, uname, writes):
     g = S.g(fn)
-    isnull = lambda n: is_call(n, ("isNull",)) and is_this_field(skip_copies(n).get("obj"), IO + "::m_device") or is_this_field(n, IO + "::m_device") and False
     def dev_atom(val):
         def atom(n):
             if is_call(n, ("isNull",)) and is_this_field(skip_copies(n).get("obj"), IO + "::m_device"):
@@ -33,54 +40,78 @@ def record_framing(ck, S, RID):
                 return val
             return None
         return atom
-    writes = [n for n in fn.calls() if name_is(n.get("callee"), ("QIODevice::write", "QIODevice::putChar")) and is_this_field(unwrap_ptr(n.get("obj")), IO + "::m_device")]
     if len(writes) != 1:
-        ck.ob(RID, sitestr(fn), False, "IODeviceSink::send performs %d device writes per record (a rotation or another thread's record could separate them)" % len(writes) if writes else "IODeviceSink::send no longer writes", key="IODeviceSink::send|write-count")
-    else:
-        w = writes[0]
-        ws = g.site_of(w)
-        keep = g.projector(dev_atom(True))
-        ok = g.must_pass({ws}, keep=keep) and not g.in_cycle(ws)
-        ck.ob(RID, sitestr(fn, w), ok, "with a device: exactly one write on every path" if ok else "with a device: the write is conditional or repeated", key="IODeviceSink::send|write-conditional")
-        ok = ws not in g.live(g.projector(dev_atom(False)))
-        ck.ob(RID, sitestr(fn, w), ok, "without a device nothing is dereferenced", key="IODeviceSink::send|null-device")
-        buf = deref_local(fn, w["args"][0]) if w.get("args") else None
-        b0 = skip_copies(w["args"][0]) if w.get("args") else None
-        if isinstance(b0, dict) and b0.get("k") == "ref" and b0.get("dk") == "local" and skip_copies(buf).get("id") == b0.get("id"):
-            # the record is built in a named buffer step by step: initialiser, then appends (straight-line history)
-            try:
-                hist = var_history(fn, g, b0["decl"])
-            except AnalysisBroken:
-                hist = None
-            if hist:
-                pieces = []
-                okh = True
-                for kind, node, rhs in hist:
-                    if kind == "init":
-                        pieces.append(rhs)
-                    elif kind == "call" and is_call(node, ("QByteArray::append", "QByteArray::push_back", "QByteArray::operator+=")):
-                        pieces.append(node)
-                    elif kind == "assign":
-                        pieces.append(rhs)
-                    elif kind == "use":
-                        continue
-                    else:
-                        okh = False
-                if okh and pieces:
-                    # a synthetic concatenation node so that the same counting applies
-                    buf = {"id": -1, "k": "initlist", "els": [p_ for p_ in pieces if isinstance(p_, dict)]}
-        nl = [x for x in walk(buf) if const_str(x) == "\n" or (x.get("k") == "char" and x.get("v") == 10)]
-        others = [x for x in walk(buf) if x.get("k") in ("str", "qstr", "char") and x not in nl and not (x.get("k") == "str" and const_str(x) == "\n")]
-        fm = [x for x in walk(buf) if is_call(x, LM + "::formattedMessage") and obj_is_param(skip_copies(x), fn, 0)]
-        enc = [x for x in walk(buf) if is_call(x, ("QString::toLocal8Bit", "QString::toUtf8"))]
-        app = [x for x in walk(buf) if is_call(x, ("QByteArray::append", "QByteArray::operator+=", "QByteArray::push_back"))]
-        nlc = len({id(x) for x in nl})
-        ok = len(fm) == 1 and len(enc) == 1 and nlc >= 1 and len(app) == 1 and not lossy_wrappers(buf) and len(w["args"]) == 1
-        # exactly one newline literal (QByteArray::append("\n") shows the literal once after folding)
-        lits = [x for x in walk(buf) if x.get("k") in ("str", "char")]
-        ok = ok and len(lits) == 1
-        ck.ob(RID, sitestr(fn, w), ok, "the buffer is encode(formattedMessage()) + one newline, written whole" if ok else
-              "record buffer is %s (text:%d encode:%d newline literals:%d appends:%d lossy:%s)" % (describe(buf)[:90], len(fm), len(enc), len(lits), len(app), lossy_wrappers(buf)), key="IODeviceSink::send|framing")
+        ck.ob(RID, sitestr(fn), False, "%s performs %d device writes per record (a rotation or another thread's record could separate them)" % (uname, len(writes)) if writes else "%s no longer writes" % uname, key="%s|write-count" % uname)
+        return
+    w = writes[0]
+    ws = g.site_of(w)
+    keep = g.projector(dev_atom(True))
+    ok = g.must_pass({ws}, keep=keep) and not g.in_cycle(ws)
+    ck.ob(RID, sitestr(fn, w), ok, "with a device: exactly one write on every path" if ok else "with a device: the write is conditional or repeated", key="%s|write-conditional" % uname)
+    ok = ws not in g.live(g.projector(dev_atom(False)))
+    ck.ob(RID, sitestr(fn, w), ok, "without a device nothing is dereferenced", key="%s|null-device" % uname)
+    buf = deref_local(fn, w["args"][0]) if w.get("args") else None
+    b0 = skip_copies(w["args"][0]) if w.get("args") else None
+    if isinstance(b0, dict) and b0.get("k") == "ref" and b0.get("dk") == "local" and skip_copies(buf).get("id") == b0.get("id"):
+        # the record is built in a named buffer step by step: initialiser, then appends (straight-line history)
+        try:
+            hist = var_history(fn, g, b0["decl"])
+        except AnalysisBroken:
+            hist = None
+        if hist:
+            pieces = []
+            okh = True
+            for kind, node, rhs in hist:
+                if kind == "init":
+                    pieces.append(rhs)
+                elif kind == "call" and is_call(node, ("QByteArray::append", "QByteArray::push_back", "QByteArray::operator+=")):
+                    pieces.append(node)
+                elif kind == "assign":
+                    pieces.append(rhs)
+                elif kind == "use":
+                    continue
+                else:
+                    okh = False
+            if okh and pieces:
+                # a synthetic concatenation node so that the same counting applies
+                buf = {"id": -1, "k": "initlist", "els": [p_ for p_ in pieces if isinstance(p_, dict)]}
+    buf = expand_locals(fn, buf)
+
+    def pieces_of(e, hist_member=False):
+        e = skip_copies(e)
+        if not isinstance(e, dict):
+            return []
+        if e.get("k") == "initlist":
+            out = []
+            for i_, x in enumerate(e.get("els", [])):
+                x_ = skip_copies(x)
+                # a history element `buf.append(x)` contributes x only (buf itself is the pieces before it)
+                if i_ > 0 and isinstance(x_, dict) and is_call(x_, ("QByteArray::append", "QByteArray::push_back", "QByteArray::operator+=")) and x_.get("args"):
+                    out += pieces_of(x_["args"][0])
+                else:
+                    out += pieces_of(x)
+            return out
+        if e.get("k") == "call" and e.get("ck") == "operator" and e.get("op") in ("+", "+=") and len(e.get("args", [])) == 2:
+            return pieces_of(e["args"][0]) + pieces_of(e["args"][1])
+        if is_call(e, ("QByteArray::append", "QByteArray::push_back", "QByteArray::operator+=")) and e.get("args") and isinstance(e.get("obj"), dict):
+            return pieces_of(e["obj"]) + pieces_of(e["args"][0])
+        if e.get("k") in ("construct", "cast", "materialize", "bindtemp") and len(e.get("args") or ([e["e"]] if isinstance(e.get("e"), dict) else [])) == 1 and "QByteArray" in (e.get("type") or e.get("class") or "QByteArray"):
+            return pieces_of((e.get("args") or [e.get("e")])[0])
+        return [e]
+    ps = pieces_of(buf)
+
+    def kind_of(x):
+        if const_str(x) == "\n" or (isinstance(x, dict) and x.get("k") in ("char", "int") and x.get("v") == 10):
+            return "nl"
+        if is_call(x, ("QString::toLocal8Bit", "QString::toUtf8")):
+            o = skip_copies(x.get("obj"))
+            if is_call(o, LM + "::formattedMessage") and obj_is_param(o, fn, 0):
+                return "text"
+        return "other"
+    kinds = [kind_of(x) for x in ps]
+    ok = kinds == ["text", "nl"] and not lossy_wrappers(buf) and len(w["args"]) == 1
+    ck.ob(RID, sitestr(fn, w), ok, "the buffer is encode(formattedMessage()) + one newline, written whole" if ok else
+          "record buffer is %s (pieces: %s; lossy:%s)" % (describe(buf)[:90], kinds, lossy_wrappers(buf)), key="%s|framing" % uname)
 
 
 def run(ck):
@@ -118,20 +149,24 @@ def run(ck):
     fn = S.send
     g = S.g(fn)
     c_init = [n for n in S.calls_to(fn, "init")]
-    c_rot = [n for n in S.calls_to(fn, "rotateIfNeeded") if arg_is_param(n, 0, fn, 0)]
-    c_wr = [n for n in fn.calls() if name_is(n.get("callee"), ("send",)) and n.get("qualified") and arg_is_param(n, 0, fn, 0) and skip_copies(n.get("obj")).get("k") == "this"]
+    c_rot = [n for n in S.calls_to(fn, "rotateIfNeeded") if arg_is_param(n, 0, fn, 0) or S.message_derived(fn, n)]
+    c_wr = S.record_writes(fn)
     if not (c_init and c_rot and c_wr):
         ck.ob("C05-O1", sitestr(fn), False, "send() no longer calls init/rotateIfNeeded/base send (%d/%d/%d)" % (len(c_init), len(c_rot), len(c_wr)), key="RotatingFileSink::send|missing-step")
     else:
         si, sr, sw = g.site_of(c_init[0]), g.site_of(c_rot[0]), g.site_of(c_wr[0])
+        # a device write spliced in from the base class's helper sits behind its "no device" guard; with a device it is unconditional
+        has_dev = lambda n_: (False if (is_call(n_, ("isNull",)) and is_this_field(skip_copies(n_).get("obj"), IO + "::m_device")) else True if is_this_field(n_, IO + "::m_device") else None)
         for nm, s in (("init()", si), ("rotateIfNeeded()", sr), ("the record write", sw)):
-            ok = g.must_pass({s}) and not g.in_cycle(s)
+            ok = g.must_pass({s}, keep=g.projector(has_dev)) and not g.in_cycle(s)
             ck.ob("C05-O1", sitestr(fn), ok, "%s runs exactly once on every path" % nm if ok else "%s is skipped on some path (a record can be dropped or written to the wrong file)" % nm, key="RotatingFileSink::send|%s-skipped" % nm)
         ok = g.dominated(sr, {si}) and g.dominated(sw, {sr}) and len(c_wr) == 1
         ck.ob("C05-O1", sitestr(fn), ok, "order: init < rotateIfNeeded < write (the record goes to the possibly new file)" if ok else "init/rotate/write are not in this order", key="RotatingFileSink::send|order")
         tgt = F.fns.get(c_wr[0].get("fn"))
-        ok = tgt is not None and tgt.id == S.io_send.id
-        ck.ob("C05-O1", sitestr(fn, c_wr[0]), ok, "the write is IODeviceSink::send (FileSink does not override it)" if ok else "the write resolves to %s" % c_wr[0].get("callee"), key="RotatingFileSink::send|write-target")
+        direct = name_is(c_wr[0].get("callee"), ("QIODevice::write", "QIODevice::putChar"))
+        ok = direct or (tgt is not None and tgt.id == S.io_send.id)
+        ck.ob("C05-O1", sitestr(fn, c_wr[0]), ok, ("the write is the device write of the base class's helper (its buffer: C05-O2)" if direct else "the write is IODeviceSink::send (FileSink does not override it)") if ok else
+              "the write resolves to %s" % c_wr[0].get("callee"), key="RotatingFileSink::send|write-target")
     record_framing(ck, S, "C05-O2")
     # ---- O3
     closed_before_handover(ck, S, "C05-O3", "C05")
